@@ -82,10 +82,41 @@ theorem run_writes (chunks : List Text) (fs : FS) (tmp : Path) (c : Text) (t : N
     obtain ⟨t', ht'⟩ := ih (apply fs (Op.write tmp ch)) (c ++ ch) fs.clock h1
     exact ⟨t', by simpa [run, List.append_assoc] using ht'⟩
 
+/-! ### meaning of the statements extracted from the source
+
+These lemmas unfold the regenerated `Generated.AtomicWriteOps`; they stop checking when
+`_make_c_or_py_source` changes its statements, their order, the read-back limit or its
+return values. -/
+
+theorem readOps_eq (fs : FS) (target : Path) :
+    readOps fs target = match fs.files target with
+      | some _ => [Op.openRead target, Op.read target, Op.closeRead target]
+      | none => [Op.openRead target] := by
+  unfold readOps
+  cases fs.files target <;> rfl
+
+theorem writeOps_eq (tmp target : Path) (chunks : List Text) (renameOk : Bool) :
+    writeOps tmp target chunks renameOk =
+      [Op.openTrunc tmp] ++ chunks.map (Op.write tmp) ++ [Op.closeWrite tmp] ++
+        (if renameOk then [Op.rename tmp target]
+         else [Op.renameFail tmp target, Op.unlink target, Op.rename tmp target]) := by
+  cases renameOk <;>
+    simp [writeOps, stepOps, pathOf, Generated.AtomicWriteOps.handlerBody, Generated.AtomicWriteOps.renameFallback]
+
+theorem upToDate_eq (fs : FS) (target : Path) (output : Text) :
+    upToDate fs target output = match fs.files target with
+      | some f => (univNewlines f.content).take (output.length + 1) == output
+      | none => false := by
+  unfold upToDate
+  cases fs.files target <;> rfl
+
+theorem tryRet_eq : stepRet Generated.AtomicWriteOps.tryBody = some false := rfl
+theorem handlerRet_eq : stepRet Generated.AtomicWriteOps.handlerBody = some true := rfl
+
 theorem readOps_not_mutating (fs : FS) (target : Path) :
     ∀ op ∈ readOps fs target, op.mutates = false := by
   intro op h
-  unfold readOps at h
+  rw [readOps_eq] at h
   split at h
   · simp only [List.mem_cons, List.not_mem_nil, or_false] at h
     rcases h with h | h | h <;> subst h <;> rfl
